@@ -138,6 +138,11 @@ func init() {
 		st := args[0].(structure)
 		lp, _ := st[2].(*value)
 		if lp == nil || lp != in.timeGlobalAddr("localLoc") {
+			if _, concrete := nativeTime(structure{st[0], st[1], (*value)(nil)}); !concrete {
+				// the real code divides 64-bit second counts by days, years, months: formulas the
+				// solvers do not finish (probe: every query runs into its time limit)
+				panic(unsupported{"Time." + name + " of a symbolic instant (calendar arithmetic is out of the solvers' reach)"})
+			}
 			return in.callReal(fr, "time", "Time", name, args)
 		}
 		t, ok := nativeTime(structure{st[0], st[1], (*value)(nil)})
